@@ -5,6 +5,7 @@ rebuild loop of `TryFrom<OrderBookState>`.
 -/
 import Bourse.Model.Ops
 import Bourse.Lemmas.Reach
+import Bourse.Lemmas.NoOverflow
 
 namespace Bourse.Props.C07
 open Bourse
@@ -74,5 +75,13 @@ theorem reload_concrete :
     b.reload = b ∧ (b.orders.map (·.order.status)) =
       [.active, .active, .filled, .cancelled, .active, .new, .rejected] := by
   decide
+
+/-- `reload_reachable_indistinguishable` for valid histories as the property states them. -/
+theorem reload_indistinguishable_valid (t0 tick : Nat) (trading : Bool) (ops : List Op)
+    (h : ValidHistory t0 tick trading ops) (cont : List Op) (n : Nat) :
+    ((Book.new t0 tick trading).run ops).reload = (Book.new t0 tick trading).run ops ∧
+    (((Book.new t0 tick trading).run ops).reload.run cont).observe n =
+      (((Book.new t0 tick trading).run ops).run cont).observe n :=
+  reload_reachable_indistinguishable t0 tick trading h.tick_pos ops h.ops_valid h.noFault cont n
 
 end Bourse.Props.C07
